@@ -5,6 +5,8 @@ import OpusProofs.MatrixDemix
 import OpusProofs.MsEncode
 import OpusProofs.ProjectionImport
 import OpusProofs.ProjectionCreate
+import OpusProofs.MsEncodeSkel
+import OpusProofs.LayoutIdentity
 import OpusProofs.LayoutIsqrt
 /-
   Property C10 — "Multistream and projection equal per-stream coding plus the channel mapping".
@@ -311,6 +313,52 @@ theorem isqrt32_correct (n : Nat) (h1 : 1 ≤ n) (h2 : n < 2 ^ 32) :
 example : isqrt32 227 = 15 ∧ isqrt32 4294967295 = 65535 ∧ isqrt32 4294836225 = 65535 ∧ isqrt32 4294836224 = 65534 := by
   decide +kernel
 
+/-- **Ambisonics (family 2) channels keep their identity.**  For every channel count for which RFC 8486
+    defines a family-2 layout (the one `surround_layout_valid` shows the encoder builds): every channel `k`
+    is coded (not muted), and the stream side the decoder writes to output channel `k` is the one the
+    encoder filled from input channel `k` (C04's `encoderInput`).  Complements C04
+    `surround_channel_identity` (families 0/1/255). -/
+theorem ambisonics_channel_identity (ch : Nat) (e : Nat × Nat × List Nat) (he : rfcLayout 2 ch = some e)
+    (k : Nat) (hk : k < ch) :
+    expectedSrc (layoutOf ch e) k ≠ .zero ∧
+    DelayChannels.encoderInput (layoutOf ch e) (expectedSrc (layoutOf ch e) k) = (k : Int) := by
+  have h := ambiIdentity_all ch
+  unfold ambiIdentity at h
+  rw [he] at h
+  simp only [List.all_eq_true, List.mem_range, Bool.and_eq_true, decide_eq_true_eq] at h
+  exact h k hk
+
+example : rfcLayout 2 6 = some (5, 1, [2, 3, 4, 5, 0, 1]) ∧
+    expectedSrc (layoutOf 6 (5, 1, [2, 3, 4, 5, 0, 1])) 4 = .left 0 ∧
+    DelayChannels.encoderInput (layoutOf 6 (5, 1, [2, 3, 4, 5, 0, 1])) (.left 0) = 4 := by decide
+
+/-- **Projection (family 3): mixing then demixing is the identity up to the stated gain, channel by
+    channel.**  For each built-in order (with / without the non-diegetic pair): the projection decoder
+    created from the encoder's exported matrix holds `pd`; the multistream layer between the two matrices
+    uses the identity mapping, so decoded channel `c` is exactly coded channel `c` (C04's `encoderInput`,
+    no channel muted); and the transfer from input channel `j` to output channel `i` — demixing cells of the
+    decoder's own copy times the encoder's mixing cells, Q30 — scaled by the exported gain is within
+    `3·10⁻⁴` of `δᵢⱼ`: channels keep their identity and level.  (`demix_inverts_mix` ∘
+    `import_export_demix` ∘ identity layout.) -/
+theorem projection_mix_demix_identity (o ch : Nat)
+    (hoc : (o, ch) ∈ [(2, 6), (2, 4), (3, 11), (3, 9), (4, 18), (4, 16), (5, 27), (5, 25), (6, 38), (6, 36)]) :
+    ∃ d mx bytes pd, demixing o = some d ∧ mixing o = some mx ∧ exportDemixing d ch ch = .ok bytes ∧
+      Projection.decoderCreate true ch ((ch + 1) / 2 : Nat) (ch / 2 : Nat) bytes (2 * ch * ch : Nat) = .ok pd ∧
+      (∀ c, c < ch → DelayChannels.encoderInput pd.layout (expectedSrc pd.layout c) = (c : Int) ∧
+        expectedSrc pd.layout c ≠ .zero) ∧
+      ∀ i j, i < ch → j < ch →
+        |(entry (productCols pd.matrix mx ch ch) i j : ℝ) * (10 : ℝ) ^ (((d.gain : Int) : ℝ) / 5120) -
+            (if i = j then (2 : ℝ) ^ 30 else 0)| ≤ 3 / 10000 * (2 : ℝ) ^ 30 := by
+  obtain ⟨d, mx, bytes, pd, hd, hmx, hex, _, hcr, _, _, _, hlay, hprod⟩ := Projection.import_export o ch hoc
+  have hch : ch ≤ 255 := by
+    simp only [List.mem_cons, Prod.mk.injEq, List.not_mem_nil, or_false] at hoc; omega
+  refine ⟨d, mx, bytes, pd, hd, hmx, hex, hcr, fun c hc => ?_, fun i j hi hj => ?_⟩
+  · rw [hlay]; exact identity_mapping_identity ch _ _ c hch hc
+  · rw [hprod]
+    have hg : demixGain o = d.gain := by simp [demixGain, hd]
+    rw [← hg]
+    exact demix_inverts_mix o ch hoc i j hi hj
+
 /-- **A multistream packet is one self-delimited packet per stream, the last in standard framing, all of
     equal duration.**  For every byte string, stream count `n ≥ 1` and API rate:
     `opus_multistream_packet_validate` returns `k` samples exactly when the bytes are
@@ -383,6 +431,37 @@ theorem ms_encode_packet_structure (n : Nat) (hn : 1 ≤ n) (fs frameSize : Nat)
     have hv := validateLoop_complete fs hfs ps true 0 frameSize hne hval hdur (fun h => by cases h)
     rw [hlen, ← hser] at hv
     exact ⟨ps, hlen, hval, hdur, hser, Int.le_trans hle (MsEncode.cbrClamp_le _ _ _ _ _ _ _), hcbr, hv⟩
+
+/-- **…with the single-stream encoder skeleton in every stream.**  `ms_encode_packet_structure` with each
+    stream's `opus_encode_native` instantiated by the encoder skeleton of C02/C05
+    (`Opus.EncSkel.encodeNative` on an arbitrary per-stream state `sts s`, all at rate `fs`): the
+    skeleton's success returns meet `EncContract` — a valid packet of the common `frame_size`
+    (`encode_wellformed`), at most `curr_max` bytes (`ret_le_out`), padded with zeros only — so the
+    multistream output has the proved structure for ALL inner SILK/CELT/analysis oracle answers `ors`
+    within the skeleton's own contracts (`SkelOk`: `(encodeNative …).ok`) and ALL frame payloads `frs` of
+    the recorded lengths.  No assumption about the per-stream encoder is left other than those inner
+    contracts. -/
+theorem ms_encode_packet_structure_skel (n : Nat) (hn : 1 ≤ n) (fs : Nat) (hfs : Rate fs) (fsz : Int)
+    (vbr : Bool) (bitrate : Option Int) (maxData : Int)
+    (sts : Nat → EncSkel.St) (hfsAll : ∀ s, (sts s).fs = (fs : Int)) (fuzz : Bool)
+    (ors : Nat → Int → EncSkel.NatOr) (frs : Nat → Int → List Bytes)
+    (hok : MsEncode.SkelOk sts fuzz fsz ors frs) :
+    (∀ out, MsEncode.encodeNative n fs fsz.toNat vbr bitrate maxData (MsEncode.skelEnc sts fuzz fsz ors frs) = .ok out →
+      ∃ ps : List Packet, ps.length = n ∧ (∀ p ∈ ps, Valid p) ∧ (∀ p ∈ ps, duration fs p = fsz.toNat) ∧
+        out = msSerialize ps ∧ (out.length : Int) ≤ maxData ∧
+        (vbr = false → (out.length : Int) =
+          MsEncode.cbrClamp n (decide (fs / fsz.toNat = 10)) vbr fs fsz.toNat bitrate maxData) ∧
+        msPacketValidate out n fs = .ok fsz.toNat) ∧
+    MsEncode.encodeNative n fs fsz.toNat vbr bitrate maxData (MsEncode.skelEnc sts fuzz fsz ors frs) ≠ .abort ∧
+    MsEncode.encodeNative n fs fsz.toNat vbr bitrate maxData (MsEncode.skelEnc sts fuzz fsz ors frs) ≠ .oob :=
+  ms_encode_packet_structure n hn fs fsz.toNat hfs vbr bitrate maxData _
+    (MsEncode.skelEnc_contract sts fuzz fsz ors frs fs hfsAll hok) (MsEncode.skelEnc_total sts fuzz fsz ors frs)
+
+/-- the skeleton really returns multi-frame padded packets inside these hypotheses (C02's example: 64 kb/s
+    CBR, 60 ms, 48 kHz stereo → three CELT frames of 158 bytes, header `FF 43 03`) -/
+example : (EncSkel.encodeNative OpusProps.C02.exSt false 2880 4000 (OpusProps.C02.exOr 158)).ok = true ∧
+    (EncSkel.encodeNative OpusProps.C02.exSt false 2880 4000 (OpusProps.C02.exOr 158)).pkt.hdr = [255, 67, 3] := by
+  decide +kernel
 
 /-- the contract is satisfiable: a per-stream encoder that always emits the 20 ms CELT packet `F8 07 07`
     when it has room (the model is executed on such oracles by the `msenc` correspondence suite) -/
